@@ -21,7 +21,6 @@ import json
 import math
 import os
 import re
-import traceback
 import warnings
 
 import numpy
@@ -212,9 +211,6 @@ def row_key(e):
 
 # ----------------------------------------------------------------------------- executing the real numpy target
 
-_FAST = {"on": False}
-
-
 @contextlib.contextmanager
 def fast_format(enable):
     """black formatting (utils.format_python, semantics preserving) costs ~30 ms per graph; the bulk of the random graphs are
@@ -297,6 +293,26 @@ def gen_inputs(rng, symtypes, n):
             t.append((dt, v))
         tuples.append(t)
     return tuples
+
+
+def directed_inputs(symtypes):
+    """deterministic inputs covering both orders of the operands (value-dependent dtypes: Python max/min)"""
+    out = []
+    for vs in T.DIRECTED[:8]:
+        t = []
+        for ty, v in zip(symtypes, vs):
+            dt = T.TY_TO_DTYPE[{"float": "float64", "complex": "complex128", "integer": "integer64"}.get(ty, ty)]
+            if dt == "bool":
+                v = bool(int(v) % 2)
+            elif dt.startswith("int"):
+                v = int(v)
+            elif dt.startswith("complex"):
+                v = complex(v, -v)
+            else:
+                v = float(v)
+            t.append((dt, v))
+        out.append(t)
+    return out
 
 
 def materialise(inp, rng=None):
@@ -824,11 +840,6 @@ def recipe_symtypes(recipe):
 
 # ----------------------------------------------------------------------------- run
 
-def load_tables():
-    with open(GEN_JSON) as f:
-        return json.load(f)
-
-
 def lookups(tb):
     canon = dict(tb["canon"])
     static_lookup = {(k, i, tuple(a)): (ty, ic) for k, i, a, ty, ic in tb["static"]}
@@ -887,17 +898,15 @@ def rows_stage(ctx, tb, broken):
     return py, bad_rows, lean_bad, disagree_by_cause
 
 
-def row_replay(ctx, k, idx, args, canon):
-    """Confirm one disagreeing row END TO END on the real code: debug=1 function of the single node."""
+def row_replay(k, idx, args):
+    """Recipe confirming one disagreeing row END TO END on the real code: the function consisting of that single node."""
     nodes = [["sym", f"x{j}", t] for j, t in enumerate(args)]
     n = len(args)
     if k == "item":
         nodes.append(["op", "item", list(range(n)), idx])
     else:
         nodes.append(["op", k, list(range(n))])
-    # use the node twice so that it gets a reference (and hence a debug=1 assertion) without forcing
-    recipe = dict(nodes=nodes, out=n, rewrite=False, mode="row")
-    return recipe
+    return dict(nodes=nodes, out=n, rewrite=False, mode="row")
 
 
 def run_recipe(ctx, recipe, inputs, tables_pack, force=True, fast=True):
@@ -937,9 +946,8 @@ def report_failures(ctx, rep, recipe, inputs, force, item=None, origin="generate
     return n
 
 
-def shipped_graphs(tier_quick):
-    import functional_algorithms as fa
-    from functional_algorithms import algorithms, rewrite, targets
+def shipped_graphs():
+    from functional_algorithms import targets
 
     out = []
     for name, sigs in targets.numpy.trace_arguments.items():
@@ -954,7 +962,7 @@ def run_shipped(ctx, tables_pack, broken, lean_lines, lean_meta):
 
     canon, static_lookup, obs_lookup = tables_pack
     nfail = 0
-    for name, sig in shipped_graphs(ctx.quick):
+    for name, sig in shipped_graphs():
         with warnings.catch_warnings():
             warnings.simplefilter("ignore")
             try:
@@ -1131,8 +1139,8 @@ def run(ctx):
         row_item = ctx.broken("rows:unexplained-disagreement", json.dumps(bad_rows[:10]) + "\n" + "\n".join(lean_bad[:10]))
         broken.append(row_item)
     for c, k, i, args, ty, obs in confirm:
-        recipe = row_replay(ctx, k, i, args, canon)
-        inputs = gen_inputs(ctx.rng, args, 4)
+        recipe = row_replay(k, i, args)
+        inputs = directed_inputs(args) + gen_inputs(ctx.rng, args, 3)
         try:
             built, rep = run_recipe(ctx, recipe, inputs, tables_pack, force=True)
         except Infra:
